@@ -4,10 +4,12 @@
 // plans since the state is per-thread).  A plan is a generated program (nested blocks, functions,
 // lambdas, methods, attribute-held functions, loops, switch, try/catch/finally, container
 // callbacks, bind, C++ -> script std::function trampolines, conversion-needing calls, eval()) with
-// fault-capable callbacks cb(K) at every level and script-level `throw` sites.
+// fault-capable callbacks cb(K) at every level and script-level `throw` and early `return` sites.
 // Fault ENUMERATION: the program is run once fault-free to record every callback invocation
-// (site K, occurrence j); then every (K, j) x every exception kind, and every script throw site,
-// is executed as its own run on a fresh engine.
+// (site K, occurrence j); then every (K, j) x every exception kind, every script throw site and
+// every early-return site (in a function: leaves the function; at top level: ends the evaluation),
+// is executed as its own run on a fresh engine.  The host enters through eval(), eval<int>(),
+// eval<std::string>() or eval() with an exception_specification.
 // Oracle after every eval (returned or thrown): H3 stack shape equals the pre-call shape
 // (stacks, scopes, call_params, call_params.back, call_depth, saves enabled); get_locals() is
 // exactly the set of top-level variables whose declaration completed; a fixed follow-up script
@@ -52,7 +54,7 @@ namespace {
   // ------------------------------------------------------------------ program generator
   struct Gen {
     Rng &rng;
-    int next_site = 1, next_flag = 1, next_name = 0;
+    int next_site = 1, next_flag = 1, next_name = 0, next_decl = 1;
     int n_funcs = 0, n_classes = 0;
     std::vector<std::string> *decl_sink = nullptr; // names a top-level helper statement declares at top level
     explicit Gen(Rng &r) : rng(r) {}
@@ -117,7 +119,7 @@ namespace {
     }
 
     std::string stmt(int d, bool top = false) {
-      const int k = int(rng.below(d <= 0 ? 3 : 17));
+      const int k = int(rng.below(d <= 0 ? 3 : 19));
       switch (k) {
       case 0:
         return expr(d) + ";";
@@ -130,6 +132,11 @@ namespace {
       }
       case 2: {
         const int f = next_flag++;
+        if (rng.chance(350)) {
+          // an early `return`: leaves the enclosing function, or at top level the whole evaluation, through
+          // every scope opened since
+          return "if (rflag(" + std::to_string(f) + ")) { return " + std::to_string(2000 + f) + " };";
+        }
         return "if (flag(" + std::to_string(f) + ")) { throw(" + std::to_string(1000 + f) + ") };";
       }
       case 3:
@@ -181,7 +188,34 @@ namespace {
       case 11:
         return "for_each([1, 2], fun(x) { " + stmts(d - 1, 2) + "});";
       case 12:
-        return "rec(" + std::to_string(rng.range(0, 3)) + ");";
+        // now and then a recursion far deeper than any other nesting in the program
+        return "rec(" + std::to_string(rng.chance(60) ? rng.range(520, 640) : rng.range(0, 3)) + ");";
+      case 17:
+      case 18: {
+        // a declaration made by the host (a registered C++ function calling add(var(..), name)) or by a nested
+        // eval("var ..") while the script is running: it lands in whatever scope is current at that moment
+        const int id = next_decl++;
+        const bool by_eval = rng.chance(400);
+        const std::string nm = (by_eval ? "ev" : "hd") + std::to_string(id);
+        const std::string call = by_eval ? "eval(\"var " + nm + " = " + std::to_string(id) + "\");" : "host_declare(" + std::to_string(id) + ");";
+        const std::string o = name("ho");
+        // (the native function is held in an attribute; the int- and the string-taking form are dispatched differently)
+        const std::string via_attr = rng.chance(500) ? "var " + o + " = Dynamic_Object(); " + o + ".hd = host_declare; " + o + ".hd(" + std::to_string(id) + ");"
+                                                     : "var " + o + " = Dynamic_Object(); " + o + ".hd = host_declare_named; " + o + ".hd(\"hd" + std::to_string(id) + "\");";
+        if (top && decl_sink) {
+          if (rng.chance(500)) {
+            decl_sink->push_back(nm); // directly at top level: a top-level declaration like any other
+            return call;
+          }
+          decl_sink->push_back(o); // through an attribute-held native function: only the object itself stays
+          return by_eval ? "var " + o + " = 0; { var pad = 0; " + call + " }" : via_attr;
+        }
+        switch (rng.below(3)) {
+        case 0: return "{ var " + name("pad") + " = 0; " + call + " }";
+        case 1: return "fun() { " + call + " }();";
+        default: return "{ " + via_attr + " }";
+        }
+      }
       case 16: {
         // calls whose argument binding fails (a capture named like a parameter, a repeated parameter
         // name): the error is raised while the callee's frame is being set up
@@ -268,13 +302,14 @@ namespace {
 
   // ------------------------------------------------------------------ execution of one crash point
   struct Fault {
-    int type = 0; // 0 none, 1 cb, 2 flag
+    int type = 0; // 0 none, 1 cb throws, 2 flag: script throw, 3 rflag: script return
     int site = 0, occ = 0, kind = 0;
   };
 
   struct Exec {
     std::vector<std::pair<int, int>> cb_calls;   // (site, occurrence)
     std::vector<std::pair<int, int>> flag_calls; // (flag, occurrence)
+    std::vector<std::pair<int, int>> rflag_calls; // (flag, occurrence) of return sites
     std::set<int> marks;
     bool fired = false;
     std::string violation_rule, violation_detail;
@@ -315,7 +350,19 @@ namespace {
             return false;
           }),
           "flag");
+    e.add(fun([&](int k) -> bool {
+            const int occ = ++flag_occ[k];
+            x.rflag_calls.emplace_back(k, occ);
+            if (f.type == 3 && f.site == k && f.occ == occ) {
+              x.fired = true;
+              return true;
+            }
+            return false;
+          }),
+          "rflag");
     e.add(fun([&](int n) { x.marks.insert(n); }), "mark");
+    e.add(fun([&e](int n) { e.add(var(n), "hd" + std::to_string(n)); }), "host_declare");
+    e.add(fun([&e](const std::string &n) { e.add(var(0), n); }), "host_declare_named");
     e.add(fun([](const std::function<int(int)> &fn, int v) { return fn(v); }), "call_cpp");
     e.add(fun([](int v) {
             Derived9 d;
@@ -376,6 +423,7 @@ namespace {
         switch (plan.at("entry").num(0)) {
         case 1: out = "=int:" + std::to_string(e.eval<int>(scripts[c])); break;
         case 2: out = "=string:" + e.eval<std::string>(scripts[c]); break;
+        case 3: out = "=" + show(e.eval(scripts[c], exception_specification<int, std::runtime_error>()), &e); break; // a thrown script value leaves through the handler
         default: out = "=" + show(e.eval(scripts[c]), &e); break;
         }
       } catch (const UserExc &) {
@@ -445,7 +493,7 @@ namespace {
       const bool thorough = tier == "thorough";
       J p = gen_program(plan, thorough);
       p["on_worker"] = J(plan.chance(500));
-      p["entry"] = J(int(plan.chance(600) ? 0 : plan.range(1, 2)));
+      p["entry"] = J(int(plan.chance(550) ? 0 : plan.range(1, 3)));
       // which exception kinds are enumerated (all in thorough; a seeded subset of 4 in quick)
       J &kinds = p["kinds"];
       kinds = J::array();
@@ -502,7 +550,7 @@ namespace {
       r.evals = 0;
       auto report = [&](const Exec &x, const Fault &f) {
         std::string where = f.type == 0 ? "fault-free" : (f.type == 1 ? "cb site " + std::to_string(f.site) + " occurrence " + std::to_string(f.occ) + " throws " + kind_names[f.kind]
-                                                                       : "script throw at flag " + std::to_string(f.site) + " occurrence " + std::to_string(f.occ));
+                                                                       : std::string(f.type == 2 ? "script throw" : "script return") + " at flag " + std::to_string(f.site) + " occurrence " + std::to_string(f.occ));
         r.fail(x.violation_rule, where + ": " + x.violation_detail);
         J only = J::object();
         only["type"] = J(f.type);
@@ -562,6 +610,13 @@ namespace {
         f.occ = c.second;
         points.push_back(f);
       }
+      for (auto &c : base.rflag_calls) {
+        Fault f;
+        f.type = 3;
+        f.site = c.first;
+        f.occ = c.second;
+        points.push_back(f);
+      }
       const size_t max_points = size_t(plan.at("max_points").num(60)) * std::max<size_t>(1, plan.at("kinds").size());
       if (points.size() > max_points) {
         // too many to enumerate: seeded sample without replacement
@@ -581,7 +636,7 @@ namespace {
         ++r.evals;
         hash_exec(h, x);
         if (x.fired) {
-          r.counters[f.type == 1 ? std::string("fault_throw_") + kind_names[f.kind] : std::string("fault_script_throw")] += 1;
+          r.counters[f.type == 1 ? std::string("fault_throw_") + kind_names[f.kind] : std::string(f.type == 2 ? "fault_script_throw" : "fault_script_return")] += 1;
           ++r.distinct_extra;
         } else {
           r.counters["crash_point_not_reached"] += 1;
